@@ -9,6 +9,13 @@ import Chain33Model.Model.C02
 namespace C04
 open C01 C02
 
+/-- `Store.MemSet` as it was BEFORE /repo e6adcc5: the empty-KV branch did `trees.Store(parentHash, nil)`, overwriting
+a pending tree stored under that hash.  Kept only for the regression theorem `C04.commit_exact_old_false`. -/
+def memSetOld (H : Bytes → Bytes) (s : Store) (parent : Bytes) (bh : Nat) (kvs : List (Bytes × Bytes)) :
+    Res Bytes × Store :=
+  if kvs.isEmpty then (.ok parent, { s with trees := storeTree s.trees parent none })
+  else memSet H s parent bh kvs
+
 inductive Label where
   | set (parent : Bytes) (height : Nat) (kvs : List (Bytes × Bytes))
   | memSet (parent : Bytes) (height : Nat) (kvs : List (Bytes × Bytes))
